@@ -14,6 +14,7 @@ import DropletsVerif.Driver.C03
 import DropletsVerif.Driver.C13
 import DropletsVerif.Driver.C16
 import DropletsVerif.Driver.C17
+import DropletsVerif.Driver.C04
 
 open DV.Drv
 
@@ -33,6 +34,7 @@ def dispatch (line : String) : String :=
   | "c13" :: args => handleC13 args
   | "c16" :: args => handleC16 args
   | "c17" :: args => handleC17 args
+  | "c04" :: args => handleC04 args
   | "c15" :: args => handleC15 args
   | _ => "bad-op"
 
